@@ -15,6 +15,29 @@ func (e *Exec) lookupIntrinsic(fn *ssa.Function) intrinsic {
 		}
 		return nil
 	}
+	if fn.Pkg != nil && fn.Pkg.Pkg.Path() == modPath+"/zz_verif/m" {
+		switch fn.Name() {
+		case "AnyLen":
+			return func(e *Exec, fr *Frame, fn *ssa.Function, a []Value) (Value, int) {
+				s := a[0].(IfaceVal).V.(SliceVal)
+				if s.Back == nil {
+					return done(konst(0))
+				}
+				return done(s.Len)
+			}
+		case "AnySwap":
+			return func(e *Exec, fr *Frame, fn *ssa.Function, a []Value) (Value, int) {
+				s := a[0].(IfaceVal).V.(SliceVal)
+				off := int(e.concretize(s.Off))
+				i, j := int(e.concretize(termArg(a[1]))), int(e.concretize(termArg(a[2])))
+				ci, cj := e.cellAt(s.Back, off+i), e.cellAt(s.Back, off+j)
+				vi, vj := e.load(ci), e.load(cj)
+				e.store(ci, vj)
+				e.store(cj, vi)
+				return done(nil)
+			}
+		}
+	}
 	name := fn.String()
 	if h, ok := intrinsics[name]; ok {
 		return h
